@@ -3,6 +3,8 @@ module verif/harness
 go 1.25.0
 
 require (
+	github.com/klauspost/compress v1.18.7
+	github.com/pierrec/lz4/v4 v4.1.26
 	github.com/twmb/franz-go v1.21.1
 	github.com/twmb/franz-go/pkg/kadm v1.18.0
 	github.com/twmb/franz-go/pkg/kfake v0.0.0
@@ -17,8 +19,6 @@ require (
 	github.com/cespare/xxhash/v2 v2.3.0 // indirect
 	github.com/go-logr/logr v1.4.3 // indirect
 	github.com/go-logr/stdr v1.2.2 // indirect
-	github.com/klauspost/compress v1.18.7 // indirect
-	github.com/pierrec/lz4/v4 v4.1.26 // indirect
 	go.opentelemetry.io/auto/sdk v1.2.1 // indirect
 	go.opentelemetry.io/otel/metric v1.43.0 // indirect
 )
